@@ -1,6 +1,6 @@
 """C16 — search-space definitions are validated and membership is decided correctly.
 
-Five families of monitors, each with its own counters and mechanism ids:
+Six families of monitors, each with its own counters and mechanism ids:
 
   member   SearchSpace.contains / assert_contains and ParameterConfig.contains
            (raw + ParameterValue) against the independent oracle vv.gen.member
@@ -15,9 +15,16 @@ Five families of monitors, each with its own counters and mechanism ids:
   walk     SequentialParameterBuilder (dfs, bfs) vs an independent recursive walk
   client   clients.Study.add_trial (RAM and in-memory SQL servicers): refused
            exactly when the oracle says non-member, nothing stored on refusal
+  life     the same refusal rule over the life cycle of a study name: programs of
+           create / open / delete / add_trial ops on one fresh servicer, several
+           handles per study (plain VizierClient, from_study_config,
+           from_owner_and_id, from_resource_name), delete + re-create of the same
+           owner / study id with a related space, from_study_config on an existing
+           study (config ignored by the service), a sibling study; every add_trial is
+           decided against the space the study has at that moment (vv/c16_life.py)
 """
 from vv import gen
-from vv import c16_builder, c16_cond as cond, c16_member, c16_walk
+from vv import c16_builder, c16_cond as cond, c16_life, c16_member, c16_walk
 from vv.c16_util import quiet_logs
 
 PROPERTY = 'C16'
@@ -27,7 +34,13 @@ RULE = ('case index -> family (member x4, builder x2, walk x2, cond, client); me
         '6 argument tuples from 8 builders x 5..17 argument classes; walk: conditional tree of '
         'depth 0..3, a value (or skip) for every parameter, dfs and bfs; cond: tree depth 1..3 '
         'x 4 assignments; client: flat space x 5 add_trial calls on RAM/SQL servicers, plus one '
-        'conditional study. distinct = hash(family, space/tree shape, class, value labels); '
+        'conditional study; with every client case one life-cycle program (own random stream '
+        "rng(i, 'life')): 1..2 study ids on a fresh RAM/SQL servicer, 1..3 steps from {delete + "
+        're-create with a mutated space (narrowed / widened / shifted / parameter dropped, added, '
+        'renamed, kind changed / fresh), from_study_config on the existing study, sibling study, '
+        're-open}, 2..4 add_trial calls after each step through any handle made so far, '
+        'assignments drawn from the current space (16 classes) and from the other spaces of the '
+        'program. distinct = hash(family, space/tree shape, class, value labels; life: op shapes); '
         'non-trivial = non-empty space (walk: depth >= 1).')
 ASSUMPTIONS = [
     'a python bool given to a BOOL parameter is a member (documented ParameterValue.as_str); a '
@@ -41,6 +54,13 @@ ASSUMPTIONS = [
     'under several values of the same parent',
     'empty feasible_values lists and out-of-domain default values are not in the property and '
     'are not generated',
+    'life: "the space" of add_trial is the space of the study stored under the resource name at '
+    'the time of the call (a study name can be deleted and created again; CreateStudy on an '
+    'existing display name loads the stored study and ignores the given config, as documented in '
+    'Study.from_study_config); add_trial on a name without a study is only counted',
+    'life: the implicit local servicer of the public classmethods is pointed at the fresh '
+    'per-case servicer through vizier_client.environment_variables.servicer_kwargs (documented '
+    'knob) and a cache_clear of the local-servicer factory; restored to in-memory SQL afterwards',
 ]
 REQUIRED_COUNTERS = ['biconditionals_checked', 'members_accepted', 'nonmembers_rejected',
                      'pc_biconditionals_checked', 'pc_true_seen', 'pc_false_seen',
@@ -49,7 +69,12 @@ REQUIRED_COUNTERS = ['biconditionals_checked', 'members_accepted', 'nonmembers_r
                      'walks_checked', 'walks_with_active_children',
                      'walks_with_inactive_params', 'add_trial_checked',
                      'add_trial_refusals', 'add_trial_accepted_members',
-                     'client_conditional_checked', 'empty_subspace_spaces_checked']
+                     'client_conditional_checked', 'empty_subspace_spaces_checked',
+                     # life cycle: the deciding observations, not just "programs ran"
+                     'life_adds_checked', 'life_stale_handle_refusals',
+                     'life_stale_handle_accepts', 'life_recreated_study_refusals',
+                     'life_ignored_config_refusals', 'life_ignored_config_accepts',
+                     'life_other_study_space_refusals']
 MIN_DISTINCT = {'quick': 1500, 'thorough': 8000}
 
 FAMILIES = ['member', 'builder', 'walk', 'member', 'cond', 'member', 'builder', 'walk',
@@ -109,6 +134,9 @@ def run_case(ctx, i):
       if not valid:
         act['zz_unknown'] = 1
       c16_walk.exec_client_conditional(ctx, backend, tree, act, valid)
+    # handle / study life cycle: own random stream, so the cases above keep their index
+    lc = c16_life.gen_life_case(ctx.rng(i, 'life'))
+    c16_life.exec_life(ctx, lc['backend'], lc['ops'])
 
 
 def run_shard(ctx):
@@ -140,5 +168,7 @@ def replay(ctx, case):
     c16_builder.replay_builder(ctx, case)
   elif fam == 'walk':
     c16_walk.replay_walk(ctx, case)
+  elif fam == 'life':
+    c16_life.replay_life(ctx, case)
   else:
     c16_walk.replay_client(ctx, case)
